@@ -477,6 +477,10 @@ def r06_8(ctx):
 
 RULES = [r06_1, r06_2, r06_3, r06_4, r06_5, r06_6, r06_7, r06_8]
 
+from .upstream import upstream_facts  # noqa: E402
+
+RULES_THOROUGH = RULES + [upstream_facts]
+
 LEVEL_TEXT = (
     "Static decision of the naming discipline that makes de-duplication by name sound: a name-dependency closure "
     "(through tokenizers, properties and super()) compared with the declared operands of all 111 expression classes, "
